@@ -37,7 +37,21 @@ static void run_ops(actor *a)
         if (a->pc_heap != pc)
             viol("program counter mismatch before op: stack=%d heap=%d (actor kind %d id %d)",
                  pc, a->pc_heap, a->kind, a->id);
-        exec_op(a, &a->ops[pc]);
+        if (a->skip_mutex >= 0) {
+            /* body of a failed trylock: skip to the matching unlock */
+            op_t *o = &a->ops[pc];
+            if (o->a[0] == a->skip_mutex) {
+                if (o->code == OP_lock || o->code == OP_lock_low || o->code == OP_lock_high ||
+                    o->code == OP_spinlock || o->code == OP_trylock)
+                    a->skip_depth++;
+                else if (o->code == OP_unlock || o->code == OP_unlock_se ||
+                         o->code == OP_unlock_de) {
+                    if (a->skip_depth-- == 0)
+                        a->skip_mutex = -1;
+                }
+            }
+        } else
+            exec_op(a, &a->ops[pc]);
         if (a->pc_heap != pc)
             viol("program counter mismatch after op %s: stack=%d heap=%d (actor kind %d id %d)",
                  opnames[a->ops[pc].code], pc, a->pc_heap, a->kind, a->id);
@@ -178,7 +192,7 @@ static void op_free(actor *a, int ui)
     int rc = u->utype == U_ULT ? ABT_thread_free(&u->h) : ABT_task_free((ABT_task *)&u->h);
     CHECK_RC(rc, "ABT_thread_free");
     check_joined(a, u, "free");
-    if (u->h != ABT_THREAD_NULL)
+    if (u->utype == U_ULT ? (u->h != ABT_THREAD_NULL) : ((ABT_task)u->h != ABT_TASK_NULL))
         viol("handle of u%d not set to NULL by free", ui);
     u->freed = 1;
     if (u->ustack) {
@@ -222,10 +236,15 @@ static void op_fset(actor *a, int k)
 
 /* ------------------------------------------------------------------ */
 /* C04: mutex                                                          */
+/* bookkeeping is atomic so that it is also exact under real parallelism */
 static actor *m_holder[MAXO];
 static int m_depth[MAXO];
 static int m_inflight[MAXO];
 static unsigned m_activity[MAXO];
+#define AINC(x) __atomic_add_fetch(&(x), 1, __ATOMIC_SEQ_CST)
+#define ADEC(x) __atomic_sub_fetch(&(x), 1, __ATOMIC_SEQ_CST)
+#define ALOAD(x) __atomic_load_n(&(x), __ATOMIC_SEQ_CST)
+#define ASTORE(x, v) __atomic_store_n(&(x), (v), __ATOMIC_SEQ_CST)
 
 static int m_recursive(int m)
 {
@@ -234,23 +253,25 @@ static int m_recursive(int m)
 static void m_acquired(actor *a, int m, const char *what)
 {
     char n1[16], n2[16];
-    if (m_holder[m] == NULL) {
-        m_holder[m] = a;
+    actor *h = ALOAD(m_holder[m]);
+    if (h == NULL) {
         m_depth[m] = 1;
-    } else if (m_holder[m] == a && m_recursive(m)) {
+        ASTORE(m_holder[m], a);
+    } else if (h == a && m_recursive(m)) {
         m_depth[m]++;
         stat_add("recursive_relock", 1);
     } else {
         viol("mutual exclusion broken: %s got mutex %d via %s while %s holds it",
-             actor_name(a, n1), m, what, actor_name(m_holder[m], n2));
+             actor_name(a, n1), m, what, actor_name(h, n2));
     }
 }
 static void op_lock(actor *a, int m, int variant)
 {
-    int contended = (m_holder[m] != NULL && m_holder[m] != a);
+    actor *h0 = ALOAD(m_holder[m]);
+    int contended = (h0 != NULL && h0 != a);
     if (a->depth[m]++ == 0)
-        m_inflight[m]++;
-    m_activity[m]++;
+        AINC(m_inflight[m]);
+    AINC(m_activity[m]);
     int rc;
     const char *what;
     switch (variant) {
@@ -278,19 +299,22 @@ static void op_lock(actor *a, int m, int variant)
 }
 static void op_trylock(actor *a, int m)
 {
-    int others = m_inflight[m] - (a->depth[m] > 0 ? 1 : 0);
-    unsigned act0 = m_activity[m];
+    /* order matters under real parallelism: activity first, then in-flight */
+    unsigned act0 = ALOAD(m_activity[m]);
+    int others = ALOAD(m_inflight[m]) - (a->depth[m] > 0 ? 1 : 0);
     if (a->depth[m]++ == 0)
-        m_inflight[m]++;
-    m_activity[m]++;
+        AINC(m_inflight[m]);
+    AINC(m_activity[m]);
     int rc = ABT_mutex_trylock(G.mutex[m]);
     if (rc == ABT_SUCCESS) {
         m_acquired(a, m, "trylock");
         stat_add("trylock_ok", 1);
     } else if (rc == ABT_ERR_MUTEX_LOCKED) {
         if (--a->depth[m] == 0)
-            m_inflight[m]--;
-        if (others == 0 && m_activity[m] == act0 + 1)
+            ADEC(m_inflight[m]);
+        a->skip_mutex = m;
+        a->skip_depth = 0;
+        if (others == 0 && ALOAD(m_activity[m]) == act0 + 1)
             viol("trylock on mutex %d failed although nobody held or was acquiring it", m);
         stat_add("trylock_busy", 1);
     } else {
@@ -299,16 +323,16 @@ static void op_trylock(actor *a, int m)
 }
 static void op_unlock(actor *a, int m, int variant)
 {
-    if (m_holder[m] != a)
+    if (ALOAD(m_holder[m]) != a)
         generr("unlock of mutex %d by a non-holder", m);
     if (--m_depth[m] == 0)
-        m_holder[m] = NULL;
+        ASTORE(m_holder[m], NULL);
     int rc = variant == 1 ? ABT_mutex_unlock_se(G.mutex[m])
                           : variant == 2 ? ABT_mutex_unlock_de(G.mutex[m])
                                          : ABT_mutex_unlock(G.mutex[m]);
     CHECK_RC(rc, "unlock");
     if (--a->depth[m] == 0)
-        m_inflight[m]--;
+        ADEC(m_inflight[m]);
 }
 
 /* ------------------------------------------------------------------ */
@@ -387,6 +411,9 @@ static void *ext_main(void *arg)
 {
     actor *a = (actor *)arg;
     run_ops(a);
+    a->ends = 1;
+    if (ds_active())
+        ds_touch();
     return NULL;
 }
 
@@ -511,9 +538,32 @@ static void run_program(void)
         if (pthread_create(&G.ext[i].pth, NULL, ext_main, &G.ext[i]) != 0)
             generr("pthread_create failed");
     run_ops(&G.main_a);
+    /* never block the primary stream in pthread_join while external threads
+     * may depend on units of the primary stream */
+    for (int i = 0; i < G.next; i++)
+        while (!G.ext[i].ends) {
+            rc = ABT_thread_yield();
+            CHECK_RC(rc, "ABT_thread_yield");
+        }
     for (int i = 0; i < G.next; i++)
         pthread_join(G.ext[i].pth, NULL);
     /* tear-down */
+    if (G.drain) {
+        /* synchronisation objects are freed below: wait (yielding) until every
+         * unit that may still use them has finished */
+        for (;;) {
+            int busy = 0;
+            for (int i = 0; i < G.nunit; i++) {
+                actor *u = &G.unit[i];
+                if (u->created && !u->cancelled && (u->ends != u->incarnation || u->running))
+                    busy = 1;
+            }
+            if (!busy)
+                break;
+            rc = ABT_thread_yield();
+            CHECK_RC(rc, "ABT_thread_yield");
+        }
+    }
     for (int i = 1; i < G.nxs; i++) {
         vxs *x = &G.xs[i];
         if (x->created && !x->freed && !x->joined) {
